@@ -435,7 +435,7 @@ def loadParameterType (ens : Option String) (x : XmlNode) : LoadM LPType := do
       (match offset with | some o => [{ coef := o, exp := 0 }] | none => []) ++
       (match scale with
        | some s => [{ coef := s, exp := 1 }]
-       | none => match offset with | some _ => [{ coef := 1, exp := 1, isInt := true }] | none => [])
+       | none => match offset with | some _ => [{ coef := 1, exp := 1 }] | none => [])   -- the float 1.0
     let enc ← match enc, coeffs with
       | e, [] => pure e
       | .num ne, cs => pure (Encoding.num { ne with cals := { ne.cals with default := some (.poly cs) } })
